@@ -138,6 +138,19 @@ def step (st : St) (ts : List String) : St × String :=
     match unhex h with
     | some bs => doWrite st k (.bytes bs)
     | none => (st, "bad-op")
+  | ["wd", cls, tys, h] =>   -- File/Socket << Stack<T> / Queue<T>: an object derived from Array<T> is its items
+    if st.reading then (st, "closed") else
+    match parseTy tys, unhex h with
+    | some t, some bs =>
+      if (cls != "stack" ∧ cls != "queue") ∨ bs.length % sizeofT t != 0 then (st, "bad-op")
+      else if k == .sb then (st, "na")
+      else doWrite st k (.array t (chunks (sizeofT t) bs))
+    | _, _ => (st, "bad-op")
+  | ["wdsb", h] =>           -- File/Socket << StreamBuffer (derived from Array<byte>): its bytes
+    if st.reading then (st, "closed") else
+    match unhex h with
+    | some bs => if k == .sb then (st, "na") else doWrite st k (.bytes bs)
+    | none => (st, "bad-op")
   | ["wc", h] =>          -- char*
     if st.reading then (st, "closed") else
     match unhex h with
@@ -179,6 +192,20 @@ def step (st : St) (ts : List String) : St × String :=
         match readOp k st.re st.rest (.scalar t) with
         | (e, rest, .val _ v) => ({ st with re := e, rest := rest }, hexW (sizeofT t) v)
         | _ => (st, "bad-op")
+  | ["rd", cls, tys, ns] =>  -- File/Socket >> Stack<T> / Queue<T> of length n
+    if !st.reading then (st, "not-reading") else
+    match parseTy tys, ns.toNat? with
+    | some t, some n =>
+      if (cls != "stack" ∧ cls != "queue") ∨ ns.length > 3 then (st, "bad-op")
+      else if k == .sb then (st, "na")
+      else if st.rest.length < n * sizeofT t then (st, "eof")
+      else if t == .b ∧ (st.rest.take n).any (· > 1) then (st, "na-bool")
+      else
+        match readOp k st.re st.rest (.array t n) with
+        | (e, rest, .vals _ vs) =>
+          ({ st with re := e, rest := rest }, hex (vs.flatMap fun v => (leBytes (sizeofT t) v).reverse))
+        | _ => (st, "bad-op")
+    | _, _ => (st, "bad-op")
   | ["ra", tys, ns] =>
     if !st.reading then (st, "not-reading") else
     match parseTy tys, ns.toNat? with
